@@ -1,12 +1,15 @@
 #!/bin/bash
 # usage: tools/runall.sh [quick|thorough] [ids...]   runs the registered checks one after the other and summarises
+# env: VERIF_DIR (default /verif), WORKERS (default 16)
 TIER=${1:-quick}; shift
-IDS=${@:-$(python3 -c "import json;print(' '.join(c['property_id'] for c in json.load(open('/verif/MANIFEST.json'))['checks']))")}
-cd /verif
+V=${VERIF_DIR:-/verif}
+IDS=${@:-$(python3 -c "import json;print(' '.join(c['property_id'] for c in json.load(open('$V/MANIFEST.json'))['checks']))")}
+cd $V
+mkdir -p $V/runlogs
 for id in $IDS; do
   s=$(date +%s)
-  ./bin/verifctl check $id --tier $TIER > /tmp/runall-$TIER-$id.log 2>&1
+  ./bin/verifctl check $id --tier $TIER --workers ${WORKERS:-16} > $V/runlogs/$TIER-$id.log 2>&1
   rc=$?
   e=$(date +%s)
-  echo "$id rc=$rc $((e-s))s $(grep -c '^VIOLATION' /tmp/runall-$TIER-$id.log) violations, $(grep -c '^KNOWN-FINDING' /tmp/runall-$TIER-$id.log) known, $(grep -c '^INCOMPLETE' /tmp/runall-$TIER-$id.log) incomplete | $(tail -1 /tmp/runall-$TIER-$id.log | cut -c1-220)"
+  echo "$id rc=$rc $((e-s))s $(grep -c '^VIOLATION' $V/runlogs/$TIER-$id.log) violations, $(grep -c '^KNOWN-FINDING' $V/runlogs/$TIER-$id.log) known, $(grep -c '^INCOMPLETE' $V/runlogs/$TIER-$id.log) incomplete | $(tail -n 1 $V/runlogs/$TIER-$id.log | cut -c1-220)"
 done
